@@ -12,7 +12,7 @@ from vf import ref_sgml
 from vf import ref_types as R
 from vf import universe as U
 from vf import wire
-from vf.core import HarnessError, Tally
+from vf.core import vacuous, HarnessError, Tally
 
 LEVEL = "exploration"
 
@@ -184,19 +184,19 @@ def run(ctx):
     jobs.sort(key=lambda j: -len(S.children(U.cls_by_name(j[0]))))
     tally = ctx.pmap(work, jobs, chunk=1)
     if tally.counts.get("elements", 0) < 1200 or tally.counts.get("classes", 0) != len(classes):
-        raise HarnessError(f"vacuous: {tally.counts}")
+        vacuous(tally, f"vacuous: {tally.counts}")
     tally.sample({"cls": "STMTTRN", "child": "dtposted", "text": "20240301000015.001[-3.30:NST]", "expected_ms": R.read_datetime("20240301000015.001[-3.30:NST]")})
     tally.sample({"cls": "STMTTRN", "child": "name", "text": "a&amp;lt;b", "expected": "a&lt;b"})
     cov = {
-        "evaluations": tally.counts["evaluations"],
-        "distinct_nontrivial": tally.counts["lexical-forms"],
+        "evaluations": tally.counts.get("evaluations", 0),
+        "distinct_nontrivial": tally.counts.get("lexical-forms", 0),
         "rule": "every class x every declared data element (and repeated element) x every lexical form of its type: Bool Y/N; Integer 0,7,-7,+7,007,-0,limit; "
         "Decimal 12 forms incl. comma separator, signs, bare separator sides; String 15 forms incl. each entity alone, doubly escaped entities, non-ASCII, the limit; "
         + ("OneOf first, last and every 7th token; " if ctx.quick else "OneOf every token; ") +
         "DateTime/Time 3 plain notations + {full, offset-without-ms} x 10 offsets - in the smallest document containing the element, rendered as v2 XML and v1 SGML "
         "(end tags omitted) by the reference renderer; + the MAXS document of every class (also with every eligible data element CDATA-wrapped); distinct_nontrivial = (element, lexical form) pairs",
-        "elements": tally.counts["elements"],
-        "classes": tally.counts["classes"],
+        "elements": tally.counts.get("elements", 0),
+        "classes": tally.counts.get("classes", 0),
         "exhaustive": True,
     }
     return {"tally": tally, "coverage": cov, "assumptions": ["documents are rendered by vf.ref_sgml/ref_header, not by the library; reference type rules trusted (self-checked against the writer)"]}
